@@ -25,7 +25,7 @@ from srctools.math import Vec, Angle, Matrix, FrozenVec, FrozenAngle, FrozenMatr
 
 PROP = 'C09'
 LEVEL = 'exploration'
-RUNS = {'quick': 12000, 'thorough': 800000}
+RUNS = {'quick': 12000, 'thorough': 1600000}
 BATCH = {'quick': 150, 'thorough': 1500}
 BUDGET_S = {'quick': 60.0, 'thorough': 1500.0}
 RULE = ('one run = one seeded object (entity with brushes/outputs/fixups, brush, face incl. displacement power 1-4 with '
